@@ -12,10 +12,11 @@ Tie, three lines, all on the object code of /repo's current tree:
      call and SIGKILLs it right after the e-th change of (size, RECORDING) in shared memory (or the
      producer dies by SIGSEGV / abort / _exit / exit), then runs the real end-of-recording code.
      shmem_list, the queued sizes and the bytes of <tid>.dat are compared with the model in Coq.
- (B) liveness: real read_record_mmap / sigchld_handler / check_tid_list on scripted messages about
+ (B) liveness: real read_record_mmap / sigchld_handler / check_tid_list / drop_pending_forks on scripted messages about
      real child processes (alive, zombie, reaped), compared with the model's tid_list.
  (C) end to end: generated -pg programs (threads, PLT calls) killed by SIGKILL / SIGSEGV / abort /
-     _exit / execv / exit / finish trigger at a chosen traced event; `uftrace record` must end,
+     _exit / execv / exit / finish trigger at a chosen traced event, and a program whose fork() fails
+     (FORK_START without FORK_END); `uftrace record` must end,
      the directory must be complete, replay/report/dump must accept it, and the decoded per-thread
      streams must be whole-record prefixes of the ground-truth log the program kept in a
      MAP_SHARED file (judged by the Coq checker).
@@ -38,9 +39,9 @@ HC = os.path.join(HERE, "..", "harness", "c")
 
 # ------------------------------------------------------------------ (A) store-level tie
 NFUNC = 16
-# which record_ret_stack the model is compared with: False = the code as found (two size updates per record with
-# payload); True = proposed-fixes/C04-1.diff (one update).  Flip when the fix is committed to /repo.
-SINGLE_BUMP = os.environ.get("VERIF_C04_SINGLE", "0") == "1"     # (environment knob: only to try the fix on a scratch tree)
+# the size-update discipline of record_ret_stack the model is run with: True = one update per record (the code
+# since fix 4751e05); False is the legacy discipline, kept in the model for the `..._legacy_refuted` theorems only
+SINGLE_BUMP = True
 ARGSPEC = {1: ["arg1"], 2: ["arg1/i32"], 3: ["arg1", "arg2"], 4: ["arg1/i32", "arg2/i32"], 9: ["arg1/i16"]}
 RETSPEC = {5: "retval", 6: "retval/i32", 3: "retval"}
 
@@ -197,9 +198,7 @@ def eval_store(ctx, cases, results, f0, name="cases_store"):
         coq_case(c, r, f0) for c, r in zip(cases, results))
     res = coq.run_cases(ctx, name, PRE, defs, [
         ("mismatch", "bad_indices agrees cases 0"),
-        ("violations", "bad_indices (fun tc => ok_case tc || (tc_in_window tc && window_shape tc)) cases 0"),
-        ("window", "bad_indices (fun tc => negb (tc_in_window tc)) cases 0"),
-        ("window_bad", "bad_indices (fun tc => negb (tc_in_window tc) || ok_case tc) cases 0"),
+        ("violations", "bad_indices ok_case cases 0"),
     ])
     if res is None:
         return None
@@ -317,7 +316,6 @@ def run_store(ctx, objdir):
     res = eval_store(ctx, good_c, good_r, f0)
     if res is None:
         return ret_exe
-    window = set(res["window"])
     for i, (c, r) in enumerate(zip(good_c, good_r)):
         nrec = len(r["file"]) // 16
         tags = ["store:mode=" + c["mode"], "store:cap=%d" % c["cap"]]
@@ -329,8 +327,8 @@ def run_store(ctx, objdir):
             tags.append("store:>=2-buffers-flushed-at-end")
         if max(r["shl"] + [0]) >= 2:
             tags.append("store:ring-grown")
-        if i in window:
-            tags.append("store:window(header-before-payload)")
+        if c["mode"] == "kill" and c["args"]:
+            tags.append("store:kill-in-history-with-payload-records")
         if c.get("directed"):
             tags.append("store:directed-" + c["directed"])
         ctx.case(key=("store", json.dumps(case_json(c), sort_keys=True)), nontrivial=len(r["file"]) > 0, tags=tags,
@@ -352,26 +350,6 @@ def store_verdict(ctx, cases, results, res, f0):
                        "cmds/record.c", "first_disagreement": case_json(cases[i], results[i]),
                        "model_expects(shl, flags, wl, file)": model_obs(ctx, cases[i], results[i], f0)}, False)
     ctx.extra["store_disagreements"] = len(res["mismatch"])
-    # the known defect: header stored and counted before the payload
-    wbad = [i for i in res["window"] if i in set(res["window_bad"])]
-    ctx.extra["store_window_cases"] = len(res["window"])
-    if wbad:
-        i = wbad[0]
-        report_known(ctx, "header-before-payload",
-                     "SIGKILL between `curr_buf->size += sizeof(*frstack)` and the payload copy of record_ret_stack "
-                     "leaves a record header with the `more` bit and no payload at the end of <tid>.dat",
-                     {"line": "store", "case": case_json(cases[i], results[i])})
-
-
-def report_known(ctx, key, text, replay):
-    """a listed finding is reported as KNOWN-FINDING; an unlisted one is kept in the evidence (the
-    lead decides about the listing; the theorems carry the exact guard and the _refuted witness)"""
-    ctx.extra.setdefault("defects_reproduced", {})[key] = text
-    if ctx.kf.listed(ctx.prop, key):
-        ctx.known_finding(key, text, True, replay)
-    else:
-        ctx.log("known defect reproduced (not listed in known-findings.txt, reported in evidence only): %s: %s"
-                % (key, text))
 
 
 # ------------------------------------------------------------------ (B) liveness tie
@@ -408,7 +386,8 @@ class LiveHarness:
 
 
 def run_live_case(exe, d, rng, MC, witness=False):
-    """returns the list of events (for Coq) of one history"""
+    """returns the list of events (for Coq) of one history.  Every history ends with: all tasks dead, check,
+    drop_pending_forks on an empty pipe without writer, check - the last check must say `all exited`."""
     h = LiveHarness(exe, d)
     evs = []
     try:
@@ -423,57 +402,62 @@ def run_live_case(exe, d, rng, MC, witness=False):
             h.cmd("MSG %d %d %d" % (MC[name], pid, tid))
             evs.append(("msg", name, pid, tid))
 
+        def ents(k):
+            return [tuple(int(x) for x in e.split(":")) for e in k]
+
         def check():
             k = h.cmd("CHECK").split()
-            ents = [tuple(int(x) for x in e.split(":")) for e in k[4:]]
-            evs.append(("check", sorted(dead | zombie), int(k[1]), int(k[2]), int(k[3]), ents))
+            evs.append(("check", sorted(dead | zombie), int(k[1]), int(k[2]), int(k[3]), ents(k[4:])))
 
-        if witness:
+        def drop(mode):
+            k = h.cmd("DROP %d" % mode).split()
+            evs.append(("drop", mode, int(k[1]), ents(k[2:])))
+
+        if witness:                 # the former fork window: FORK_START, no FORK_END, every task dead
             msg("TASK_START", p0, p0)
             msg("FORK_START", p0, 0)
             msg("TASK_END", p0, p0)
-            for k in kids:
-                h.cmd("KILL %d" % k)
-                zombie.add(k)
-            for _ in range(3):
-                check()
-            return evs
-        for _ in range(rng.randrange(6, 26)):
-            x = rng.random()
-            anyp = rng.choice(kids + ghost)
-            if pending_fork and x < 0.5:
-                pp = pending_fork.pop(0)
-                msg("FORK_END", pp if rng.random() < 0.7 else 1, anyp)     # ppid 1: the daemon() fallback
-            elif x < 0.25:
-                msg("TASK_START", p0, anyp)
-            elif x < 0.40:
-                msg("TASK_END", p0, anyp)
-            elif x < 0.50:
-                msg("FORK_START", rng.choice(kids), 0)
-                pending_fork.append(evs[-1][2])
-            elif x < 0.55:
-                msg("FINISH", 0, 0)
-            elif x < 0.65:
-                h.cmd("SIGCHLD %d" % anyp)
-                evs.append(("sig", anyp))
-            elif x < 0.80 and alive:
-                k = rng.choice(sorted(alive))
-                h.cmd("KILL %d" % k)
-                alive.discard(k)
-                zombie.add(k)
-            elif x < 0.88 and zombie:
-                k = rng.choice(sorted(zombie))
-                h.cmd("REAP %d" % k)
-                zombie.discard(k)
-                dead.add(k)
-            elif not pending_fork:      # stay out of the fork-window class (dedicated witness only)
-                check()
-        while pending_fork:
-            msg("FORK_END", pending_fork.pop(0), rng.choice(kids))
+        else:
+            for _ in range(rng.randrange(6, 26)):
+                x = rng.random()
+                anyp = rng.choice(kids + ghost)
+                if pending_fork and x < 0.35:
+                    pp = pending_fork.pop(0)
+                    msg("FORK_END", pp if rng.random() < 0.7 else 1, anyp)     # ppid 1: the daemon() fallback
+                elif x < 0.22:
+                    msg("TASK_START", p0, anyp)
+                elif x < 0.36:
+                    msg("TASK_END", p0, anyp)
+                elif x < 0.48:
+                    msg("FORK_START", rng.choice(kids), 0)
+                    pending_fork.append(evs[-1][2])
+                elif x < 0.52:
+                    msg("FINISH", 0, 0)
+                elif x < 0.60:
+                    h.cmd("SIGCHLD %d" % anyp)
+                    evs.append(("sig", anyp))
+                elif x < 0.72 and alive:
+                    k = rng.choice(sorted(alive))
+                    h.cmd("KILL %d" % k)
+                    alive.discard(k)
+                    zombie.add(k)
+                elif x < 0.80 and zombie:
+                    k = rng.choice(sorted(zombie))
+                    h.cmd("REAP %d" % k)
+                    zombie.discard(k)
+                    dead.add(k)
+                elif x < 0.90:
+                    drop(rng.choice([0, 0, 2, 1]))
+                else:
+                    check()
+            # some FORK_STARTs keep their FORK_END (fork() failed / child died early)
+            while pending_fork and rng.random() < 0.5:
+                msg("FORK_END", pending_fork.pop(0), rng.choice(kids))
         for k in sorted(alive):
             h.cmd("KILL %d" % k)
             zombie.add(k)
         check()
+        drop(1)
         check()
         return evs
     finally:
@@ -491,6 +475,10 @@ def coq_lev(e):
         return "LMsg (%s)" % m
     if e[0] == "sig":
         return "LSig %s" % z(e[1])
+    if e[0] == "drop":
+        _, mode, ret, ents = e
+        return "LDrop %s %s [%s]" % (coq.coq_bool(mode == 1), coq.coq_bool(ret),
+                                      "; ".join("(%s, %s, %s)" % (z(p), z(t), coq.coq_bool(x)) for p, t, x in ents))
     _, dead, ret, cex, fin, ents = e
     return "LCheck [%s] %s %s %s [%s]" % (
         "; ".join(z(d) for d in dead), coq.coq_bool(ret), coq.coq_bool(cex), coq.coq_bool(fin),
@@ -502,8 +490,7 @@ def eval_live(ctx, hists, name="cases_live"):
         "[" + "; ".join(coq_lev(e) for e in h) + "]" for h in hists)
     res = coq.run_cases(ctx, name, PRE, defs, [
         ("mismatch", "bad_indices (fun h => live_agrees h (rs0 [])) hists 0"),
-        ("violations", "bad_indices ok_live hists 0"),
-        ("forkwin", "bad_indices (fun h => negb (fork_window_seen h)) hists 0"),
+        ("violations", "bad_indices (fun h => ok_live h && last_check_true h false) hists 0"),
     ])
     if res is None:
         return None
@@ -523,7 +510,11 @@ def run_live(ctx, rec_exe):
             ctx.broken("liveness harness failed: %s" % ex)
             continue
         hists.append(evs)
-        tags = ["live:witness-fork-window"] if witness else ["live:history"]
+        tags = ["live:fork-start-without-fork-end,all-dead(former-fork-window)"] if witness else ["live:history"]
+        if any(e[0] == "drop" and e[1] == 1 and e[2] == 1 for e in evs):
+            tags.append("live:pending-fork-dropped")
+        if any(e[0] == "drop" and e[1] != 1 for e in evs):
+            tags.append("live:drop-refused(pipe-has-writer-or-data)")
         if any(e[0] == "msg" and e[1] == "FORK_END" and e[2] == 1 for e in evs):
             tags.append("live:fork-end-daemon-fallback")
         if any(e[0] == "msg" and e[1] == "FINISH" for e in evs):
@@ -540,8 +531,9 @@ def run_live(ctx, rec_exe):
 
 def live_verdict(ctx, hists, res):
     for i in res["violations"][:3]:
-        ctx.violation("C04 violated (recorder liveness): check_tid_list does not report a dead task / does not "
-                      "answer `all exited` when every listed task is marked", {"line": "live", "history": hists[i]}, True)
+        ctx.violation("C04 violated (recorder liveness): a dead task is not marked / a pending fork is not given up "
+                      "on an empty pipe without writer / `all exited` is not answered when every task is dead",
+                      {"line": "live", "history": hists[i]}, True)
     if res["mismatch"] and not res["violations"]:
         i = res["mismatch"][0]
         ctx.violation("model and implementation of the recorder's task bookkeeping disagree (%d histories); the "
@@ -549,15 +541,6 @@ def live_verdict(ctx, hists, res):
                       {"line": "live", "correspondence": "C04.Model handle/sigchld/check_tid_list vs cmds/record.c",
                        "first_disagreement": hists[i]}, False)
     ctx.extra["live_disagreements"] = len(res["mismatch"])
-    if 0 in res["forkwin"]:
-        report_known(ctx, "fork-window",
-                     "FORK_START without FORK_END (fork() failed or the child died before its atfork handler): the "
-                     "tid_list entry with tid = -1 is never marked exited, check_tid_list never returns true and "
-                     "`uftrace record` does not terminate although every task is dead",
-                     {"line": "live", "history": hists[0]})
-    extra = [i for i in res["forkwin"] if i != 0]
-    if extra:
-        ctx.broken("generator entered the fork-window class outside the dedicated witness (history %d)" % extra[0])
 
 
 # ------------------------------------------------------------------ (C) end to end
@@ -892,29 +875,65 @@ int main(void)
 """
 
 
-def fork_window_e2e(ctx, objdir, out):
-    """dedicated end-to-end witness of the fork window: fork() fails in the tracee (EAGAIN), the program ends
-    normally, `uftrace record` never terminates (runs in a side thread; 8 s without an exit = hang)"""
+def fork_fail_e2e(ctx, objdir, out):
+    """fork() fails in the tracee (seccomp answers EAGAIN), the program ends normally: FORK_START without
+    FORK_END.  An ordinary end-to-end case: `uftrace record` must end, the directory must be complete and
+    replay/report/dump must accept it (runs in a side thread)."""
     try:
-        d = os.path.join(ctx.scratch, "forkwin")
+        d = os.path.join(ctx.scratch, "forkfail")
         os.makedirs(d, exist_ok=True)
         src, exe, data = os.path.join(d, "fk.c"), os.path.join(d, "fk"), os.path.join(d, "data")
         open(src, "w").write(FORK_FAIL_PROG)
         sh(["gcc", "-pg", "-o", exe, src], check=True)
         rc0, _, _ = sh(["timeout", "10", exe], cwd=d)
         if rc0 != 0:
-            out["skipped"] = "seccomp witness program does not work here (rc=%d)" % rc0
+            out["skipped"] = "seccomp program does not work here (rc=%d)" % rc0
             return
         uft = os.path.join(objdir, "uftrace")
         t0 = time.time()
-        p = subprocess.run(["timeout", "-s", "KILL", "8", uft, "record", "--no-pager", "--no-event",
+        p = subprocess.run(["timeout", "-s", "KILL", "15", uft, "record", "--no-pager", "--no-event",
                             "--libmcount-path=" + objdir, "-d", data, exe], capture_output=True, text=True, cwd=d)
         out["rc"] = p.returncode
         out["wall"] = round(time.time() - t0, 2)
         out["hang"] = p.returncode in (137, -9, 124)
+        out["files"] = sorted(os.listdir(data)) if os.path.isdir(data) else []
+        out["analysis"] = {}
+        if not out["hang"]:
+            for c in ("replay", "report", "dump"):
+                rc, o, err = sh(["timeout", "60", uft, c, "--no-pager", "-d", data], timeout=70)
+                out["analysis"][c] = (rc, (err or "")[-200:], len(o or ""))
         clean_shm(data)
     except Exception as ex:           # reported by the caller
         out["error"] = repr(ex)
+
+
+def fork_fail_verdict(ctx, fw):
+    ctx.extra["fork_fail_e2e"] = fw
+    rj = {"line": "forkfail", "program": FORK_FAIL_PROG}
+    if fw.get("error"):
+        ctx.broken("failing-fork end-to-end case failed to run: %s" % fw["error"])
+        return
+    if fw.get("skipped"):
+        ctx.log("failing-fork end-to-end case skipped:", fw["skipped"])
+        return
+    ctx.case(key=("e2e", "forkfail"), tags=["e2e:fork-fails-in-tracee(FORK_START-without-FORK_END)"])
+    if fw.get("hang"):
+        ctx.violation("C04 violated: `uftrace record` did not terminate after fork() failed in the tracee "
+                      "(FORK_START without FORK_END; killed after 15 s)", rj, True)
+        return
+    files = fw["files"]
+    missing = [n for n in ("info", "task.txt") if n not in files]
+    if not any(f.startswith("sid-") and f.endswith(".map") for f in files):
+        missing.append("sid-*.map")
+    if not any(f.endswith(".sym") for f in files):
+        missing.append("*.sym")
+    if missing:
+        ctx.violation("C04 violated: data directory incomplete after fork() failed in the tracee: missing %s" % missing,
+                      dict(rj, files=files), True)
+    for c, (rc, err, n) in fw["analysis"].items():
+        if rc != 0:
+            ctx.violation("C04 violated: `uftrace %s` rejects the directory left after fork() failed in the tracee "
+                          "(rc=%d): %s" % (c, rc, err), rj, True)
 
 
 # ------------------------------------------------------------------ entry points
@@ -930,8 +949,7 @@ def common_meta(ctx):
         "record_ret_stack, record_trace_data), libmcount/mcount.c (segv_handler, exit filter), cmds/record.c "
         "(read_record_mmap, record_mmap_file, writer, flush_shmem_list, record_remaining_buffer, tid_list, stop_tracing)",
         "generated constants coq/theories/Gen/Consts.v (record magic, record types, shm flag bits, message numbers)",
-        "props/c04.py SINGLE_BUMP names which size-update discipline of record_ret_stack the model is run with "
-        "(False = /repo as found; the theorem without guard, C04_prefix_fixed, is about True)",
+        "props/c04.py SINGLE_BUMP = True: the model is run with one size update per record (code since fix 4751e05)",
         "harness/c/c04_rec.c (ptrace driver; #includes cmds/record.c), harness/c/c04_prod.c, props/c04.py "
         "(script generation, payload encoding, log decoding)",
         "Linux ptrace single-stepping, POSIX shm, FIFO and SIGKILL semantics",
@@ -954,22 +972,16 @@ def run(ctx):
     objdir = build.get_build("plain", ctx.log)
     import threading
     fw = {}
-    th = threading.Thread(target=fork_window_e2e, args=(ctx, objdir, fw))
+    th = threading.Thread(target=fork_fail_e2e, args=(ctx, objdir, fw))
     th.start()
-    rec_exe = run_store(ctx, objdir)
-    run_live(ctx, rec_exe)
+    try:
+        rec_exe = run_store(ctx, objdir)
+        run_live(ctx, rec_exe)
+    except RuntimeError as ex:       # e.g. the harness no longer compiles against cmds/record.c: keep searching end to end
+        ctx.broken("store-level / liveness tie could not run: %s" % str(ex)[:300], str(ex))
     run_e2e(ctx, objdir)
     th.join()
-    ctx.extra["fork_window_e2e"] = fw
-    if fw.get("error"):
-        ctx.broken("fork-window end-to-end witness failed to run: %s" % fw["error"])
-    elif fw.get("hang"):
-        ctx.tag("e2e:witness-fork-window(record-hangs)")
-        report_known(ctx, "fork-window",
-                     "fork() fails in the tracee (seccomp EAGAIN), the program ends normally: `uftrace record` does not "
-                     "terminate (killed after 8 s; a normal run takes 0.1 s)", {"line": "forkwin", "program": FORK_FAIL_PROG})
-    elif "rc" in fw:
-        ctx.log("fork-window witness: record terminated (rc=%s, %.2fs): the defect no longer reproduces" % (fw["rc"], fw["wall"]))
+    fork_fail_verdict(ctx, fw)
 
 
 def replay(ctx, obj):
@@ -1004,22 +1016,20 @@ def replay(ctx, obj):
         ob = e2e_run(os.path.join(objdir, "uftrace"), objdir, pr, work, 0, case)
         ctx.log("replayed e2e case:", case, "rc=%s files=%s" % (ob.get("rc"), ob.get("files")))
         e2e_judge(ctx, [pr], [case], [ob])
-    elif obj.get("line") == "forkwin":
+    elif obj.get("line") in ("forkfail", "forkwin"):
         fw = {}
-        fork_window_e2e(ctx, objdir, fw)
-        ctx.case(key="replay")
-        ctx.log("fork-window witness:", fw)
-        if fw.get("hang"):
-            report_known(ctx, "fork-window", "fork() fails in the tracee: `uftrace record` does not terminate",
-                         {"line": "forkwin", "program": FORK_FAIL_PROG})
+        fork_fail_e2e(ctx, objdir, fw)
+        ctx.log("failing-fork case:", fw)
+        fork_fail_verdict(ctx, fw)
     elif obj.get("line") == "live":
         # real pids differ from run to run: the recorded history is re-judged, and a fresh batch is run
         h = obj.get("history") or obj.get("first_disagreement")
         hist = [tuple(tuple(x) if isinstance(x, list) and e[0] != "check" else x for x in e) for e in h]
-        hist = [(e[0], e[1], e[2], e[3], e[4], [tuple(t) for t in e[5]]) if e[0] == "check" else tuple(e) for e in hist]
+        hist = [(e[0], e[1], e[2], e[3], e[4], [tuple(t) for t in e[5]]) if e[0] == "check" else
+                (e[0], e[1], e[2], [tuple(t) for t in e[3]]) if e[0] == "drop" else tuple(e) for e in hist]
         res = eval_live(ctx, [hist], "replay_live")
         ctx.case(key="replay")
         if res is not None:
-            live_verdict(ctx, [hist], {"violations": res["violations"], "mismatch": res["mismatch"], "forkwin": []})
+            live_verdict(ctx, [hist], res)
         rec_exe, _, _ = build_store(ctx, objdir)
         run_live(ctx, rec_exe)
